@@ -1,4 +1,5 @@
 """C08 -- grammar mistakes are rejected with the right diagnostic; clean grammars pass (structural clauses)."""
+import re
 from vlib import ast as A, prov as P
 from vlib import rules_pipeline as RPL
 from . import common
@@ -408,18 +409,37 @@ def conflicting_descr_rule(repo, res, rule="GUARD"):
         res.undecided(rule, f"{rule}:{fq}:ConflictingDescriptions", "site not found", fn.loc())
         return
     s = ss[0]
-    pg = A.preceding_guards(s, pm)
-    texts = [cond_text(repo, fn, c).replace(" ", "") for k, c, st in pg if k == "if"]
-    ok = any("left_literal!=right_literal" in t for t in texts) and any("left_description==right_description" in t for t in texts)
-    loops = [g for g in A.guards_of(s, pm) if g[0]["k"] == "ForLoop"]
-    win = False
-    srt = False
-    if loops:
-        it = A.resolve(loops[0][0]["iter"], envs.get(id(loops[0][0])))
-        win = it[0] == "mcall" and it[1] == "windows" and it[3][0] == ("lit", "2")
-        srt = any(True for _ in P.find_calls(fn.body, methods={"sort_by_key", "sort", "sort_unstable_by_key", "sort_unstable"}))
-        src = A.show(it)
-        win = win and "iter_transitions_from" in src
+    # what is known to hold where the error is built, however the two tests are spelled (two `continue`s, one `find` predicate, ...):
+    # an equality between the FIRST components (literals) and an inequality between the SECOND components (descriptions) of the two
+    # neighbours of a windows(2) pass
+    from vlib import preds as PR
+    kn = PR.known(repo, fn, s, envs, pm)
+
+    def sides(k):
+        k = k.strip()
+        negated = False
+        while k.startswith("!"):
+            negated = not negated
+            k = k[1:].strip()
+        m = re.fullmatch(r"\((.*) (==|!=) (.*)\)", k)
+        if not m or "windows('2')" not in k:
+            return None
+        eq = (m.group(2) == "==") != negated
+        comp = [re.search(r"\.(\d+)$", x.strip()) for x in (m.group(1), m.group(3))]
+        if not all(comp):
+            return None
+        return eq, comp[0].group(1), comp[1].group(1)
+
+    got = [x for x in map(sides, kn) if x]
+    ok = any(eq and a == b == "0" for eq, a, b in got) and any((not eq) and a == b == "1" for eq, a, b in got)
+    calls = set()
+    for g, role in A.guards_of(s, pm):
+        if g["k"] == "ForLoop":
+            calls |= A.reach_calls(g["iter"], envs.get(id(g)))
+        elif g["k"] == "If" and g["cond"]["k"] == "Let":
+            calls |= A.reach_calls(g["cond"]["expr"], envs.get(id(g["cond"]["expr"])) or envs.get(id(g)))
+    win = "windows" in calls and "iter_transitions_from" in calls
+    srt = any(True for _ in P.find_calls(fn.body, methods={"sort_by_key", "sort", "sort_unstable_by_key", "sort_unstable", "sort_by", "sort_unstable_by"}))
     res.check(ok and win and srt, rule, f"{rule}:{fq}:ConflictingDescriptions",
               f"adjacent pairs of the state's (literal, description) list sorted by literal: equal literal & different description -> error (pair-guards={ok}, windows(2) over this state's transitions={win}, sorted={srt})", fn.loc())
 
